@@ -7,6 +7,7 @@ spellings. Differential oracle: the observation tuple of every node equals its s
 """
 
 import itertools
+import json
 
 from .. import core, observe, sweep
 from ..engine import rewrite
@@ -80,7 +81,8 @@ def compare(fam, seed, s, want=None):
         if want is None:
             want = observe.observation(fam, so)
         obj = cls(s)
-        got = observe.observation(fam, obj)
+        got = json.loads(json.dumps(observe.observation(fam, obj)))
+        want = json.loads(json.dumps(want))
     except Exception as e:  # noqa
         return "raised %s: %s" % (type(e).__name__, e)
     for k in sorted(want):
@@ -151,31 +153,48 @@ def _direct_task(t):
     return acc
 
 
-def run(ctx, res):
-    nseeds = 48 if ctx.thorough else 40
-    seeds = []
+def prepare(tier, res=None):
+    """Seeds and their observations; the observations are computed in a fork so that the parent
+    process (and hence every task forked from it) stays pristine."""
+    nseeds = 48 if tier == "thorough" else 40
+    cand = []
     for fam in T.FAMILIES:
         for s, asg in observe.covering_seeds(fam, nseeds):
             key = T.model_key(fam, asg)
-            if key in _SEEDOBS:
-                continue
-            cls = observe.cls_of(fam)
+            if key not in [c[0] for c in cand]:
+                cand.append((key, s, fam))
+
+    def observe_all():
+        out = []
+        for key, s, fam in cand:
             try:
-                _SEEDOBS[key] = (s, observe.observation(fam, cls(s)), fam)
+                out.append(["ok", observe.observation(fam, observe.cls_of(fam)(s))])
             except Exception as e:  # noqa
-                res.add_violation({"what": "%s(%r) raised %s: %s" % (T.CLASSNAME[fam], s,
-                                                                      type(e).__name__, e),
+                out.append(["exc", "%s: %s" % (type(e).__name__, e)])
+        return out
+
+    seeds = []
+    for (key, s, fam), (kind, obs) in zip(cand, core.in_fork(observe_all)):
+        if kind != "ok":
+            if res is not None:
+                res.add_violation({"what": "%s(%r) raised %s" % (T.CLASSNAME[fam], s, obs),
                                    "kind": "respell", "input": s, "seed": s,
                                    "signature": {"kind": "respell"}})
-                continue
-            seeds.append(s)
-    accs, st = rewrite.explore(ctx, seeds, neighbours, judge, depth=1)
+            continue
+        _SEEDOBS[key] = (s, obs, fam)
+        seeds.append(s)
+    return seeds
+
+
+def run(ctx, res):
+    seeds = prepare(ctx.tier, res)
+    accs, st = rewrite.explore(ctx, seeds, neighbours, judge, depth=1, tag="depth1")
     ctx.log("rewrite graph depth 1: %d nodes %d edges" % (st["nodes"], st["edges"]))
     stats = {"depth1": st}
     if ctx.thorough:
         deep = [s for s in seeds if len(s.split("/")) <= 12][:4] + \
             [s for s in seeds if fam_of(s) == "4.0"][3:4]
-        accs2, st2 = rewrite.explore(ctx, deep, neighbours, judge, depth=2, parts=256)
+        accs2, st2 = rewrite.explore(ctx, deep, neighbours, judge, depth=2, parts=256, tag="depth2")
         ctx.log("rewrite graph depth 2: %d nodes %d edges" % (st2["nodes"], st2["edges"]))
         stats["depth2"] = st2
         accs += accs2
@@ -230,7 +249,7 @@ def run(ctx, res):
         for mk in sorted(masks):
             tasks.append(("nd", fam, c, mk, mk + 1))
         nd_v4 = len(masks)
-    accs += core.pool_map(_direct_task, ctx.rot(tasks))
+    accs += core.task_map(_direct_task, ctx.rot(tasks))
     tot = sweep.merge(accs)
     cov = res.coverage
     cov["states"] = tot["n"]
@@ -265,3 +284,22 @@ def replay(case):
     fam = fam_of(s)
     why = compare(fam, seed, s)
     return bool(why), why or "same observations as %r" % seed
+
+
+def replay_task(case):
+    seeds = prepare(case.get("tier") or "quick")
+    t = case["task"]
+    if isinstance(t, dict):
+        return core.replay_func_task(case)
+    tag, level, chunk, parts = t
+    from .c04 import _Ctx
+    if tag == "depth1":
+        accs, _ = rewrite.explore(_Ctx(), seeds, neighbours, judge, 1, parts, tag, (level, chunk), case["input"])
+    else:
+        deep = [s for s in seeds if len(s.split("/")) <= 12][:4] + [s for s in seeds if fam_of(s) == "4.0"][3:4]
+        accs, _ = rewrite.explore(_Ctx(), deep, neighbours, judge, 2, parts, tag, (level, chunk), case["input"])
+    for a in accs:
+        for c in a.get("bad", []):
+            if c.get("input") == case["input"]:
+                return True, c["what"]
+    return False, "the chunk no longer fails on %r" % (case["input"],)
